@@ -4,6 +4,13 @@
 //! no-base mode rather than being blindly trusted. Written atomically
 //! (tmp+rename+fsync) with the previous copy retained as `.bak`.
 
+#[cfg(paiml_copia_verif)]
+#[allow(unused_imports)]
+use copia_simworld::shim::{fs2, std, tokio};
+#[cfg(paiml_copia_verif)]
+#[allow(unused_imports)]
+use copia_simworld::{eprintln, println};
+
 use super::reconcile::FpMap;
 use serde::{Deserialize, Serialize};
 use std::io::Write;
